@@ -24,6 +24,11 @@ Section Replica.
 
   Definition prepare (s : S) : S := s.         (* pebble.NewSnapshot / Flush + Checkpoint: an immutable view *)
   Definition save (f : sfmt) (pinned : S) : bytes * S := (snap_header f, pinned).
+  (* SaveSnapshot with its stop signal and its sink: a save that is stopped, or whose sink fails, reports an error and
+     yields no stream (whatever bytes reached the sink are not a snapshot) *)
+  Inductive save_outcome := SaveDone (str : bytes * S) | SaveError.
+  Definition save_to (f : sfmt) (pinned : S) (stopped sink_failed : bool) : save_outcome :=
+    if stopped || sink_failed then SaveError else SaveDone (save f pinned).
   (* the receiver's configured format plays no role: the header decides; the old state is replaced as a whole *)
   Definition recover (cfg : sfmt) (old : S) (str : bytes * S) : option S :=
     match parse_header (fst str) with Some _ => Some (snd str) | None => None end.
